@@ -112,7 +112,9 @@ class levels_of:
 
 def choose_contracts(tier='quick'):
     shapes = [((1,), 2, ('k',)), ((2,), 1, ('k',)), ((3,), 1, ()),
-              ((1, 1), 1, ('k',)), ((2, 1), 1, ())]
+              ((1, 1), 1, ('k',)), ((2, 1), 1, ()),
+              # two keyword arguments: evaluated in the caller's order
+              ((1,), 1, ('k', 'm'))]
     if tier != 'quick':
         # (three candidates with a keyword argument need > 5000 paths: not
         # decidable within the per-function wall-clock budget, left out)
@@ -152,8 +154,10 @@ def _setup_candidates(world):
             return None
         pos = tuple(SVal(U('c.pd', S.Val, z3.IntSort(), S.Val)(
             recv.t, z3.IntVal(i))) for i in range(len(a)))
+        # (the keyword part of a mapping comes in the CALLEE's parameter
+        # order, which need not be the caller's: reversed here)
         kwd = {key: SVal(U('c.pdk', S.Val, z3.StringSort(), S.Val)(
-            recv.t, z3.StringVal(key))) for key in k}
+            recv.t, z3.StringVal(key))) for key in reversed(list(k))}
         return (pos, kwd)
     world.opaque_sigs['map_args'] = map_args
 
